@@ -142,6 +142,18 @@ static void gen(long seed, int nexec, int dmax, int smax, int mmax, int irq)
 	}
 }
 
+/* sender 1's single claim loses the compare-exchange on sendp `k` times in a row to sender 2's claims */
+static void starve(int d, int k)
+{
+	reset(d, 2, k + 1, 1);          /* both senders may send up to k+1 messages; the receiver makes one attempt */
+	step(1); step(1);                /* victim: fetch_sub, load sendp */
+	for (int i = 0; i < k; i++) {
+		step(2); step(2); step(2); step(2);   /* rival: fetch_sub, load, cas (wins), fetch_or */
+		step(1);                              /* victim: cas fails, reloads */
+	}
+	step(1); step(1);                /* victim: cas succeeds at last, sends */
+}
+
 int main(void)
 {
 	drv_cmd_t c;
@@ -151,6 +163,8 @@ int main(void)
 			reset(drv_arg(&c, 0), drv_arg(&c, 1), drv_arg(&c, 2), drv_arg(&c, 3));
 		else if (drv_is(&c, "S"))
 			step(drv_arg(&c, 0));
+		else if (drv_is(&c, "Starve"))
+			starve(drv_arg(&c, 0), drv_arg(&c, 1));
 		else if (drv_is(&c, "Gen"))
 			gen(drv_arg(&c, 0), drv_arg(&c, 1), drv_arg(&c, 2), drv_arg(&c, 3), drv_arg(&c, 4), drv_arg(&c, 5));
 		else { fprintf(stderr, "mq_drv: unknown command %s\n", c.tok[0]); return 3; }
